@@ -75,7 +75,7 @@ type convertCtx struct {
 func runConvert(c *core.Ctx, r *rec, idx int) {
 	g := &Gen{r: c.Rand(fmt.Sprintf("convert-%d", idx)), uid: int64(idx) * 10_000_000}
 	cc := &convertCtx{r: r, fb: flatbuffers.NewBuilder(2048), dec: newStorageDecoder()}
-	nBatches := c.Pick(500, 12000)
+	nBatches := c.Pick(3000, 18000)
 	for b := 0; b < nBatches; b++ {
 		mb := genMiniBatch(g, cc)
 		cc.runMiniBatch(g, mb)
@@ -220,11 +220,10 @@ func (cc *convertCtx) runMiniBatch(g *Gen, mb *miniBatch) {
 				continue // flat framing is lost for the whole request, reported by the per format oracle
 			}
 			if o.accepted != ref.accepted {
-				v := judge(m, mb.env, f, len(mb.flatIn[i]))
-				if v.Status == stUnspec && !v.FormatSpecific {
-					r.Violation("C16/format-disagree-validity/"+v.Reason,
-						fmt.Sprintf("the same metric is accepted=%t as %s but accepted=%t as %s (%s)", ref.accepted, formats[0], o.accepted, f, v.Reason),
-						cc.witness(mb, m, f, "cross", map[string]interface{}{"other_format": formats[0]}))
+				// Not a violation: the property does not demand that the formats agree on validity, and a rejection is never
+				// one. Specified cases are decided by the per format oracle; the rest is only counted.
+				if v := judge(m, mb.env, f, len(mb.flatIn[i])); v.Status == stUnspec && !v.FormatSpecific {
+					r.Count("formats_disagree_on_unspecified_validity/"+v.Reason, 1)
 				}
 				// for specified cases the per format accept/reject classes already fired
 				continue
